@@ -109,7 +109,8 @@ def work_theorem(args):
                 continue
             st = solve.discharge(o, quick_ms=quick_ms, cli_timeout=cli_timeout,
                                  outdir=os.path.join(outdir, "smt2"), extra_rules=rules,
-                                 rounds=thm.options.get("axiom_rounds", 3), fuel=thm.options.get("fuel", 1))
+                                 rounds=thm.options.get("axiom_rounds", 3), fuel=thm.options.get("fuel", 1),
+                                 nla=thm.options.get("nla", True))
             rec = {"name": o.name_full, "group": group_of(o.name_full), "status": st.status,
                    "backend": st.backend, "secs": round(st.secs, 4), "kind": o.meta.get("kind"),
                    "clause": o.meta.get("clause"), "got": o.meta.get("got"), "want": o.meta.get("want"),
